@@ -17,6 +17,7 @@ import (
 func init() {
 	operations["x.fs"] = opXFs
 	operations["x.f2r"] = opXF2R
+	operations["x.big"] = opXBig
 	operations["x.padrange"] = opXPadRange
 	operations["x.pad"] = opXPad
 	operations["x.padsize"] = opXPadSize
@@ -92,6 +93,25 @@ func opXFs(f []string) string {
 	invp := fs.InvertedFrameRange(3)
 	o.Add("invp", hx(xStrip(invp)))
 	o.Add("invpw", showBool(numeralsPadded(invp, 3)))
+	return o.String()
+}
+
+// x.big <hex text> <qi> <qv>: a range of any size answered arithmetically (no enumeration, no
+// Normalize / Invert): validity, length, start, end, frame at index, index of frame, membership
+func opXBig(f []string) string {
+	txt := unhx(f[1])
+	qi, qv := ints(f[2]), ints(f[3])
+	var o Obs
+	fs, err := fileseq.NewFrameSet(txt)
+	if err != nil || fs.Len() == 0 {
+		o.Add("valid", "0")
+		return o.String()
+	}
+	o.Add("valid", "1")
+	o.Add("len", strconv.Itoa(fs.Len()))
+	o.Add("start", strconv.Itoa(fs.Start()))
+	o.Add("fin", strconv.Itoa(fs.End()))
+	addQueries(&o, frameSetView{fs}, qi, qv)
 	return o.String()
 }
 
@@ -285,6 +305,18 @@ func genC19(r *Rand, n int, thorough bool, emit func(string)) {
 		}
 	})
 	genC09(r, per, thorough, rename("f2r", "x.f2r"))
+	// huge single ranges (positions beyond 32 bits inside one block), queried at the boundaries,
+	// at interior members and at their neighbours
+	genHuge(r, per/4, thorough, func(s string) {
+		p := strings.Split(s, " ")
+		if len(p) == 6 && p[0] == "huge" {
+			txt := p[1] + "-" + p[2]
+			if p[3] != "0" {
+				txt += "x" + p[3]
+			}
+			emit("x.big " + hx(txt) + " " + p[4] + " " + p[5])
+		}
+	})
 	genC11(r, per, thorough, rename("padrange", "x.padrange"))
 	genC10(r, per/2, thorough, func(s string) {
 		if strings.HasPrefix(s, "pad.chars ") {
@@ -379,6 +411,22 @@ func genXDir(r *Rand) string {
 				num = "0" + num
 			}
 			ents = append(ents, entry{b + num + e, 'f'})
+		}
+	}
+	if len(keys) > 0 && r.Chance(1, 6) {
+		// a second family whose basename is the first one's plus a space or a '+': a different key,
+		// not frames of the first
+		k0 := keys[0]
+		sep := r.Pick([]string{" ", "+"})
+		if !used[k0.base+sep+"|"+k0.ext] {
+			used[k0.base+sep+"|"+k0.ext] = true
+			for j := 1; j <= 3; j++ {
+				num := strconv.Itoa(j)
+				for len(num) < k0.w {
+					num = "0" + num
+				}
+				ents = append(ents, entry{k0.base + sep + num + k0.ext, 'f'})
+			}
 		}
 	}
 	np := r.Range(0, 3)
